@@ -1398,7 +1398,7 @@ class Store:
             # use initial state as default, merge in divided values
             merged_initial_state = deep_merge(
                 copy.deepcopy(daughter_state),
-                daughter.get('initial_state', {}))
+                copy.deepcopy(daughter.get('initial_state', {})))
 
             daughter_key = daughter['key']
             daughter_path = (daughter_key,)
